@@ -355,7 +355,7 @@ Print Assumptions shipped_loop_refuted.
 (* ---- main() end to end ---- *)
 Theorem cli_main_writes_library_output :
   forall (V : Type) (parse : string -> option V) (print : V -> string)
-         (lib : list (string * value) -> bool -> list (list V)
+         (lib : list (string * value) -> bool -> nat -> list (list V)
                 -> option (list (list V) * option (list (list V) * list V)))
          a content ps io,
   cli_decide gen_tables a = Run ps io ->
@@ -366,6 +366,7 @@ Theorem cli_main_writes_library_output :
   | RWrong _ => Fail 1%Z
   | RMat file =>
     match lib ps (flag g ["precompute"])
+              (if negb (flag g ["transpose-input"]) then length file else width V file)
               (if negb (flag g ["transpose-input"]) then transpose V file else file) with
     | None => Fail 1%Z
     | Some (E, proj) =>
@@ -385,7 +386,7 @@ Proof. exact gen_main_run. Qed.
 Print Assumptions cli_main_writes_library_output.
 
 Theorem cli_unequal_rows_exit : forall (V : Type) (parse : string -> option V) (print : V -> string)
-         (lib : list (string * value) -> bool -> list (list V)
+         (lib : list (string * value) -> bool -> nat -> list (list V)
                 -> option (list (list V) * option (list (list V) * list V))) a content,
   (forall d, exists i, read_data_fixed V parse d content = RWrong i) ->
   exists c, gen_main V parse print lib a content = Fail c /\ c <> 0%Z.
@@ -393,7 +394,7 @@ Proof. exact gen_main_unequal_rows. Qed.
 Print Assumptions cli_unequal_rows_exit.
 
 Theorem cli_main_cases : forall (V : Type) (parse : string -> option V) (print : V -> string)
-         (lib : list (string * value) -> bool -> list (list V)
+         (lib : list (string * value) -> bool -> nat -> list (list V)
                 -> option (list (list V) * option (list (list V) * list V))) a content,
   (exists c, gen_main V parse print lib a content = Fail c /\ c <> 0%Z) \/
   (exists out, gen_main V parse print lib a content = Done 0%Z out).
